@@ -117,6 +117,12 @@ def mechanism(draw, closed_loops=True, point_masses=True, conservative=False, ma
         # a sphere-sphere contact element between the first two bodies with radii so small that it never closes: it takes
         # part in every step (step_callback, active-set logic) without changing the motion
         spec["idle_contact"] = True
+    if kind == "chain":
+        revs_ = [i for i, j in enumerate(joints) if j["type"] == "Revolute"]
+        if revs_ and draw(st.integers(0, 2)) == 0:
+            # a torsional spring on a revolute joint (acts on the tracked joint angle)
+            spec["joint_spring"] = {"joint": draw(st.sampled_from(revs_)), "k": draw(gen.f(1.0, 15.0)),
+                                    "l_ref": draw(gen.f(-1.0, 1.0)), "compliance": draw(st.integers(0, 2)) == 0}
     if kind == "chain" and not conservative:
         revs = [i for i, j in enumerate(joints) if j["type"] == "Revolute"]
         if revs and draw(st.booleans()):
@@ -212,6 +218,12 @@ def build_mechanism(spec, t0=0.0, state=None, consistent=True, opts=None):
         if spec.get("idle_contact") and len(bodies) >= 2:
             from cardillo.contacts import Sphere2Sphere
             system.add(Sphere2Sphere(bodies[0], bodies[1], 0.01, 0.01, 0.3, e_N=0.0, name="idle_contact"))
+        if "joint_spring" in spec:
+            js_ = spec["joint_spring"]
+            tors = sysbuild.make_force_law({"type": "Spring", "k": js_["k"], "l_ref": js_["l_ref"], "compliance": js_["compliance"]},
+                                           objs["joints"][js_["joint"]])
+            tors.name = "joint_spring"
+            system.add(tors)
         if "drive" in spec:
             dr = spec["drive"]
             jn = objs["joints"][dr["joint"]]
